@@ -55,11 +55,11 @@ RULE = ("integer batches (b 1..4, c, h, w small, groups dividing) for the normal
         "distinct protocol line / (entry, size, batch, position, scale)")
 
 PENDING_FINDINGS = [
-    "XPDNet/normalize:raises-RuntimeError",
+    # listed as `known:` by the lead; the oracle keeps yielding it
     "ConjGradNet/conv-sense-FR/tol1e-3:batch-dependence",
 ]
 # configurations that cannot be evaluated at all on the current tree (reported by C17)
-_UNUSABLE = {"gru-zero-padding", "eval-set_-alias", "normunet-zero-group"}
+_UNUSABLE = {"normunet-zero-group"}
 
 _ZOO = None
 _MODELS: dict = {}
